@@ -58,6 +58,7 @@ def scen_callsite(env, cfg):
         kw = {}
         if fsarg:
             kw['fs'] = env.real('fs', 1e8, 1e11)
+        env.assume(BW * 2 < kw.get('fs', gvfs))         # documented precondition: 0 < cutoff < fs/2 (scipy rejects anything else)
         y = D.LPF(arg, BW, n, **kw) if n is not None else D.LPF(arg, BW, **kw)
         exp_wn, exp_fs = BW, kw.get('fs', gvfs)
     else:
@@ -66,6 +67,7 @@ def scen_callsite(env, cfg):
         N = [[v + (1 if i == 11 else 0) for i, v in enumerate(env.cplxs(f'w{p}', L, -3, 3))] for p in range(pol)] if noise else None
         arg = T.optical_signal(list(S[0]), list(N[0]) if noise else None) if pol == 1 else \
             T.optical_signal([list(r) for r in S], [list(r) for r in N] if noise else None)
+        env.assume(BW < gvfs)                            # cutoff BW/2 < fs/2
         y = D.BPF(arg, BW, n) if n is not None else D.BPF(arg, BW)
         exp_wn, exp_fs = BW / 2, gvfs
     if not env.symbolic:
